@@ -418,4 +418,78 @@ theorem SK_connect (g : G8) (s : Sess) (hlog : s.log = []) (hS : S g s) :
   · rw [connect_already s hc]
     exact hSK
 
+/-- the ghost state at the start of an event: the connection marker of a successful connect comes first -/
+def g8Start (g : G8) (s : Sess) (e : Ev) : G8 :=
+  match e with
+  | .connect => if (connect s).2 == "ok" then c8Step g .connected else g
+  | _ => g
+
+theorem SK_setState (g0 : G8) (fuel : Nat) (s : Sess) (r : Sess × SState) (hT : T8 g0 s r) (hf : 4 * pend s + 2 ≤ fuel)
+    (hS : SK g0 s) : SK g0 (setState fuel r.1 r.2) := by
+  cases hc : r.2.connected
+  · have := hT.st hS
+    simp only [hc, Bool.false_eq_true, if_false] at this
+    exact (c8_mutual g0 fuel).1 r.1 r.2 hc (by rw [hT.fr.pend]; exact hf) this
+  · rw [setState_connected fuel r.1 r.2 hc]
+    have := hT.st hS
+    simp only [hc, if_true] at this
+    exact this
+
+theorem SK_stepCore (g : G8) (s : Sess) (e : Ev) (hlog : s.log = []) (happ : appSend e = true) (hS : S g s) :
+    SK (g8Start g s e) (stepCore s e).1 := by
+  have hSK : SK g s := by unfold SK g8Of; rw [hlog]; exact hS
+  have hpl := pend_le_inbox s
+  obtain ⟨mS, mD, mI, mC⟩ := c8_mutual g (fuelOf s)
+  have hPM := pend_mutual (fuelOf s)
+  unfold stepCore
+  simp only []
+  cases e with
+  | connect => exact SK_connect g s hlog hS
+  | incomingMsg m => exact (mI s m (by unfold fuelOf; omega)).2 hSK
+  | arrive m =>
+    show SK g (if s.inboxOpen = true then (s.setInbox (s.inbox ++ [m]), "ok") else (s, "noconn")).1
+    split
+    · exact hSK.congr rfl rfl rfl rfl rfl
+    · exact hSK
+  | pop =>
+    show SK g (if (!s.inboxOpen) = true then (s, "none") else
+      match s.inbox with
+      | [] => (s, "none")
+      | m :: rest => (incoming (fuelOf s) (s.setInbox rest) (some m), "ok")).1
+    split
+    · exact hSK
+    · split
+      · exact hSK
+      · rename_i m rest hib
+        have hp : pend (s.setInbox rest) ≤ rest.length := pend_le_inbox _
+        have hl : s.inbox.length = rest.length + 1 := by rw [hib]; rfl
+        exact (mI (s.setInbox rest) (some m) (by unfold fuelOf; omega)).2 (hSK.congr rfl rfl rfl rfl rfl)
+  | timeout ev =>
+    show SK g (setState (fuelOf s) (timeoutCore (checkSessionTime (fuelOf s) s true true) ev).1
+      (timeoutCore (checkSessionTime (fuelOf s) s true true) ev).2)
+    have h1 := (mC s true true (by unfold fuelOf; omega)).2 hSK
+    have hp1 := hPM.2.2.2 s true true
+    exact SK_setState g _ _ _ (t8_timeoutCore g _ ev) (by unfold fuelOf at *; omega) h1
+  | disconnected =>
+    show SK g (if s.st.connected = true then setState (fuelOf s) s .latent else s)
+    split
+    · exact mS s .latent rfl (by unfold fuelOf; omega) hSK.1
+    · exact hSK
+  | stop =>
+    show SK g (setState (fuelOf s) (stopNext s.setPendingStop).1 (stopNext s.setPendingStop).2)
+    have h1 : SK g s.setPendingStop := hSK.congr rfl rfl rfl rfl rfl
+    exact SK_setState g _ _ _ (t8_stopNext g _) (by unfold fuelOf; exact (by have : pend s.setPendingStop = pend s := rfl; omega)) h1
+  | send m =>
+    have hadm : isAdminKind m.kind = false := by simpa [appSend] using happ
+    exact SK_send g s m hadm hSK
+  | flush =>
+    show SK g (if (checkSessionTime (fuelOf s) s true true).st.loggedOn = true then sendQueued (checkSessionTime (fuelOf s) s true true)
+      else (checkSessionTime (fuelOf s) s true true).setToSend [])
+    have h1 := (mC s true true (by unfold fuelOf; omega)).2 hSK
+    split
+    · rename_i hl
+      exact (pn_flush g _ hl).st h1
+    · exact (pn_setToSend_nil g _).st h1
+  | sessionTime r sm => exact (mC s r sm (by unfold fuelOf; omega)).2 hSK
+
 end Qfx.Sess
